@@ -2,7 +2,7 @@ SPECIFICATION SpecMC
 CONSTANTS
   MaxSteps = 3
   Depth = 0
-  OpNames = {"AddHeading", "SetStyle", "AddStyle", "ModifyStyle", "RemoveStyle", "GenerateTOC", "AutoGenerateTOC", "UpdateTOC", "ApplyTableStyle", "CreateCustomTableStyle", "AddListItem", "AddNote", "Save", "Reopen", "OpenForeign", "Markdown"}
+  OpNames = {"AddHeading", "SetStyle", "AddStyle", "ModifyStyle", "RemoveStyle", "GenerateTOC", "AutoGenerateTOC", "UpdateTOC", "ApplyTableStyle", "CreateCustomTableStyle", "AddListItem", "AddNote", "Save", "Reopen", "OpenForeign", "Markdown", "Switch", "Look"}
   Lv = {2, 9}
   Maxes = {3}
   StyIds = {"C1", "Zz9"}
@@ -16,7 +16,10 @@ CONSTANTS
   Kinds = {"all"}
   ViasC = {"CreateQuickStyle"}
   HowsC = {"mutate"}
+  OnIds = {"Normal", "Heading2"}
+  NoteKinds = {"fn", "en"}
+  Looks = {"styles"}
   FreshC = {TRUE}
 INVARIANTS Inv_Defined Inv_Wf Inv_Pending
-PROPERTIES Act_Save Act_Keep
+PROPERTIES Act_Save Act_Keep Act_Remove Act_Isolated
 CHECK_DEADLOCK FALSE
